@@ -830,3 +830,8 @@ MUTATIONS += [
     # entering a directory forgets to push the current parent trees (leaving it later restores the wrong level)
     dict(id="C11-set-dir-no-push", prop="C11", file=PAR13, old="        let old_tree = std::mem::replace(&mut self.trees, new_tree);\n        self.stack.push(old_tree);", new="        let _old_tree = std::mem::replace(&mut self.trees, new_tree);"),
 ]
+
+MUTATIONS += [
+    # the object-store listing with sizes reports directory placeholders (non-file entries) whose name is an id
+    dict(id="C20-opendal-list-reports-non-files", prop="C20", file="crates/backend/src/opendal.rs", old="                if !metadata.is_file() {\n                    return None;\n                }\n                let name = entry.name();", new="                let name = entry.name();"),
+]
